@@ -4,66 +4,8 @@
 #include "Db/DbGrid.hpp"
 #include "Enum/ELoc.hpp"
 
+#include "db_observe.hpp"
 using namespace vh;
-
-static const int NLOC = 29;
-
-static std::string val(double v) { return dyNA(v); }
-
-static std::string observe(const Db* db)
-{
-  std::ostringstream os;
-  int ncol = db->getColumnNumber();
-  int nech = db->getSampleNumber(false);
-  int umax = db->getUIDMaxNumber();
-  os << "N=" << ncol << " E=" << nech << " U=" << umax;
-  os << " names=";
-  if (ncol == 0) os << "-";
-  for (int i = 0; i < ncol; i++) os << (i ? "," : "") << db->getNameByColIdx(i);
-  std::vector<int> uids;
-  for (int i = 0; i < ncol; i++) uids.push_back(db->getUIDByColIdx(i));
-  os << " uids=" << vecI(uids);
-  os << " loc=";
-  bool any = false;
-  for (int t = 0; t < NLOC; t++)
-  {
-    ELoc lt = ELoc::fromValue(t);
-    int n = db->getLocatorNumber(lt);
-    if (n <= 0) continue;
-    std::vector<int> us;
-    for (int i = 0; i < n; i++) us.push_back(db->getUIDByLocator(lt, i));
-    os << (any ? "/" : "") << t << ":" << vecI(us);
-    any = true;
-  }
-  if (!any) os << "-";
-  os << " vals=";
-  if (ncol == 0) os << "-";
-  for (int c = 0; c < ncol; c++)
-  {
-    if (c) os << "/";
-    if (nech == 0) os << "~";
-    for (int e = 0; e < nech; e++) os << (e ? "," : "") << val(db->getValueByColIdx(e, c));
-  }
-  os << " act=" << db->getSampleNumber(true);
-  std::vector<int> cu;
-  std::string def;
-  for (int u = 0; u < umax; u++) { cu.push_back(db->getColIdxByUID(u)); def += db->isUIDDefined(u) ? '1' : '0'; }
-  os << " cu=" << vecI(cu);
-  os << " bycol=";
-  if (ncol == 0) os << "-";
-  for (int c = 0; c < ncol; c++)
-  {
-    ELoc lt; int li;
-    bool ok = db->getLocatorByColIdx(c, &lt, &li);
-    if (c) os << ",";
-    if (ok) os << lt.getValue() << ":" << li; else os << "_";
-  }
-  std::vector<int> idx;
-  for (int c = 0; c < ncol; c++) idx.push_back(db->getColIdx(db->getNameByColIdx(c)));
-  os << " idx=" << vecI(idx);
-  os << " def=" << (def.empty() ? "-" : def);
-  return os.str();
-}
 
 int main()
 {
